@@ -474,5 +474,8 @@ fn main() {
     cmpsel!(rep, USizeVec4, BVec4);
     rep.sample(json!({"model": "BVec3A", "trace": ["init new(true,false,true)", "Set(1,true)", "Cmp(17) (xor with Vec3A comparison whose operands had NaN/inf in the hidden lane)", "Not"], "checked_in_every_state": "any all bitmask test(0..N) test/set(N..N+2,usize::MAX) panic == != Hash Into<[bool;3]> Into<[u32;3]> Display Debug"}));
     rep.sample(json!({"space": "Vec4/cmp*", "case": "lane 3 = (NaN, NaN), others finite", "want": "cmpne lane true, all others false"}));
+    // every operator trait impl of the tree (inventory from the rustdoc JSON): reference, assign and
+    // scalar forms agree with the by-value form decided above
+    harness::opforms::run(&mut rep, "mask", harness::opforms::OPFORMS_MASK);
     std::process::exit(rep.finish());
 }
